@@ -1,14 +1,80 @@
 from xdsl.context import Context
 from xdsl.dialects import builtin, equivalence
-from xdsl.ir import OpResult
+from xdsl.ir import Block, Operation, OpResult
 from xdsl.passes import ModulePass
 from xdsl.rewriter import Rewriter
+
+
+def _dependencies(op: Operation, block: Block) -> list[Operation]:
+    """
+    The operations of `block` that define a value used by `op` or by an operation nested
+    in `op`.
+    """
+    deps: list[Operation] = []
+    for inner in op.walk():
+        for operand in inner.operands:
+            owner = operand.owner
+            if isinstance(owner, Block):
+                owner = owner.parent_op()
+            if owner is None:
+                continue
+            dep = block.find_ancestor_op_in_block(owner)
+            if dep is not None and dep is not op:
+                deps.append(dep)
+    return deps
+
+
+def restore_dominance_order(block: Block):
+    """
+    The operations of an e-graph are not kept in dominance order: rewrites insert new
+    operations next to the matched root, reuse identical operations wherever they are,
+    and e-classes are merged in place. Once the e-classes are gone every operation has
+    to come after the operations of its block that compute its operands, so the
+    operations are reordered by a stable depth-first topological sort. A block that is
+    already ordered is left untouched, as are cycles (which can only remain while some
+    e-classes have not been extracted).
+    """
+    ops = tuple(block.ops)
+    index = {id(op): i for i, op in enumerate(ops)}
+    dependencies = tuple(_dependencies(op, block) for op in ops)
+    if all(index[id(dep)] < i for i, deps in enumerate(dependencies) for dep in deps):
+        return
+
+    order: list[Operation] = []
+    emitted: set[int] = set()
+    on_stack: set[int] = set()
+    for op in ops:
+        if id(op) in emitted:
+            continue
+        stack = [(op, iter(dependencies[index[id(op)]]))]
+        on_stack.add(id(op))
+        while stack:
+            current, remaining = stack[-1]
+            for dep in remaining:
+                if id(dep) not in emitted and id(dep) not in on_stack:
+                    stack.append((dep, iter(dependencies[index[id(dep)]])))
+                    on_stack.add(id(dep))
+                    break
+            else:
+                stack.pop()
+                on_stack.remove(id(current))
+                emitted.add(id(current))
+                order.append(current)
+
+    for op in ops:
+        op.detach()
+    block.add_ops(order)
 
 
 def eqsat_extract(module_op: builtin.ModuleOp):
     eclass_ops = [
         op for op in module_op.walk() if isinstance(op, equivalence.AnyClassOp)
     ]
+    eclass_blocks = list(
+        {
+            id(block): block for op in eclass_ops if (block := op.parent) is not None
+        }.values()
+    )
 
     while eclass_ops:
         op = eclass_ops.pop()
@@ -44,6 +110,9 @@ def eqsat_extract(module_op: builtin.ModuleOp):
             Rewriter.erase_op(op)
 
     assert not eclass_ops
+
+    for block in eclass_blocks:
+        restore_dominance_order(block)
 
 
 class EqsatExtractPass(ModulePass):
